@@ -38,6 +38,14 @@ func RefOf(rt corpus.Runtime, file string) *Ref {
 	for _, d := range spec.Deps {
 		_ = files.RegisterFile(RefOf(rt, d).File)
 	}
+	for _, e := range spec.Ext { // well-known types: the descriptors protobuf-go ships
+		if f, err := protoregistry.GlobalFiles.FindFileByPath(e); err == nil {
+			_ = files.RegisterFile(f)
+			for i := 0; i < f.Imports().Len(); i++ {
+				_ = files.RegisterFile(f.Imports().Get(i).FileDescriptor)
+			}
+		}
+	}
 	fd, err := protodesc.NewFile(corpus.Build(spec, rt), files)
 	if err != nil {
 		panic(fmt.Sprintf("corpus file %s does not validate: %v", k, err))
